@@ -25,18 +25,20 @@ pub struct Variation {
     pub legacy_pal: bool,
     /// permute cel chunks within each frame
     pub cel_order: bool,
+    /// the palette written as several new-format chunks (parts of the range; a stale version of a sub-range first)
+    pub split: bool,
     /// storage used when `storage` is off
     pub default_storage: Storage,
 }
 
 impl Variation {
     pub fn none() -> Variation {
-        Variation { storage: false, count_style: false, ignorable: false, junk: false, zero_ratio: false, padding: false, trailer: false, legacy_pal: false, cel_order: false, default_storage: Storage::Zlib(6) }
+        Variation { storage: false, count_style: false, ignorable: false, junk: false, zero_ratio: false, padding: false, trailer: false, legacy_pal: false, cel_order: false, split: false, default_storage: Storage::Zlib(6) }
     }
     pub fn all() -> Variation {
-        Variation { storage: true, count_style: true, ignorable: true, junk: true, zero_ratio: true, padding: true, trailer: true, legacy_pal: true, cel_order: true, default_storage: Storage::Zlib(6) }
+        Variation { storage: true, count_style: true, ignorable: true, junk: true, zero_ratio: true, padding: true, trailer: true, legacy_pal: true, cel_order: true, split: true, default_storage: Storage::Zlib(6) }
     }
-    pub const NAMES: [&'static str; 9] = ["storage", "count_style", "ignorable", "junk", "zero_ratio", "padding", "trailer", "legacy_pal", "cel_order"];
+    pub const NAMES: [&'static str; 10] = ["storage", "count_style", "ignorable", "junk", "zero_ratio", "padding", "trailer", "legacy_pal", "cel_order", "split"];
     pub fn only(i: usize) -> Variation {
         let mut v = Variation::none();
         match i {
@@ -48,12 +50,13 @@ impl Variation {
             5 => v.padding = true,
             6 => v.trailer = true,
             7 => v.legacy_pal = true,
+            9 => v.split = true,
             _ => v.cel_order = true,
         }
         v
     }
     pub fn describe(&self) -> String {
-        let flags = [self.storage, self.count_style, self.ignorable, self.junk, self.zero_ratio, self.padding, self.trailer, self.legacy_pal, self.cel_order];
+        let flags = [self.storage, self.count_style, self.ignorable, self.junk, self.zero_ratio, self.padding, self.trailer, self.legacy_pal, self.cel_order, self.split];
         let on: Vec<&str> = Variation::NAMES.iter().zip(flags.iter()).filter(|(_, f)| **f).map(|(n, _)| *n).collect();
         if on.is_empty() {
             "baseline".into()
@@ -229,7 +232,28 @@ pub fn compile_with(sp: &Sprite, rng: &mut Rng, v: &Variation, palprog: &Palette
                         if before {
                             f0.push(legacy.clone().into());
                         }
-                        f0.push(palette_chunk(pal, rng, v.junk).into());
+                        if v.split && pal.len() >= 2 {
+                            // a stale version of a sub-range first (every later chunk wins), then the range in 2-3 parts
+                            let keys: Vec<u32> = pal.keys().cloned().collect();
+                            if rng.chance(1, 2) {
+                                let a = rng.usize_below(keys.len());
+                                let b = a + rng.usize_below(keys.len() - a);
+                                let stale: std::collections::BTreeMap<u32, PalEntryM> = keys[a..=b].iter().map(|k| (*k, PalEntryM { rgba: [rng.u8(), rng.u8(), rng.u8(), rng.u8()], name: if rng.chance(1, 3) { Some("stale".into()) } else { None } })).collect();
+                                f0.push(palette_chunk(&stale, rng, v.junk).into());
+                            }
+                            let parts = rng.range(2, 3.min(keys.len() as i64)) as usize;
+                            let mut cuts: Vec<usize> = (0..parts - 1).map(|_| 1 + rng.usize_below(keys.len() - 1)).collect();
+                            cuts.push(0);
+                            cuts.push(keys.len());
+                            cuts.sort_unstable();
+                            cuts.dedup();
+                            for w in cuts.windows(2) {
+                                let part: std::collections::BTreeMap<u32, PalEntryM> = keys[w[0]..w[1]].iter().map(|k| (*k, pal[k].clone())).collect();
+                                f0.push(palette_chunk(&part, rng, v.junk).into());
+                            }
+                        } else {
+                            f0.push(palette_chunk(pal, rng, v.junk).into());
+                        }
                         if sp.sprite_ud.is_some() || (v.legacy_pal && !before) {
                             f0.push(legacy.into());
                             legacy_present = true;
@@ -281,15 +305,22 @@ pub fn compile_with(sp: &Sprite, rng: &mut Rng, v: &Variation, palprog: &Palette
                 reserved.copy_from_slice(&rng.bytes(8));
                 tag_reserved.copy_from_slice(&rng.bytes(6));
             }
-            f0.push(ChunkSpec::Tags { tags: sp.tags.clone(), reserved, tag_reserved }.into());
-            // user data for tags: records follow in tag order; a tag without a
-            // record can only be skipped with an empty record, so records are
-            // emitted for the prefix of tags up to the last tag that has one.
-            let last = sp.tags.iter().rposition(|t| t.ud.is_some());
-            if let Some(last) = last {
-                for t in &sp.tags[..=last] {
-                    let ud = t.ud.clone().expect("tag user data must form a prefix (generator invariant)");
-                    f0.push(ChunkSpec::UserData(ud).into());
+            // one tags chunk, or the grouping the model asks for
+            let groups: Vec<usize> = if sp.tag_chunks.is_empty() || sp.tag_chunks.iter().sum::<usize>() != sp.tags.len() { vec![sp.tags.len()] } else { sp.tag_chunks.clone() };
+            let mut start = 0;
+            for n in groups {
+                let part = &sp.tags[start..start + n];
+                start += n;
+                f0.push(ChunkSpec::Tags { tags: part.to_vec(), reserved, tag_reserved }.into());
+                // user data for tags: records follow in tag order; a tag without a
+                // record can only be skipped with an empty record, so records are
+                // emitted for the prefix of this chunk's tags up to the last tag that has one.
+                let last = part.iter().rposition(|t| t.ud.is_some());
+                if let Some(last) = last {
+                    for t in &part[..=last] {
+                        let ud = t.ud.clone().expect("tag user data must form a prefix of its chunk (generator invariant)");
+                        f0.push(ChunkSpec::UserData(ud).into());
+                    }
                 }
             }
         }
@@ -415,6 +446,19 @@ pub fn compile_with(sp: &Sprite, rng: &mut Rng, v: &Variation, palprog: &Palette
                 if matches!(c.spec, ChunkSpec::UserData(_)) && rng.chance(1, 2) {
                     let r = rng.u32();
                     c.flag_junk = *rng.pick(&[0x8u32, 0x10, 0x100, 0x8000_0000, 0xffff_fff8, r]) & !7;
+                }
+            }
+        }
+    }
+    if v.legacy_pal && has_new_format && rng.chance(1, 3) {
+        if let Some(pal) = &sp.palette {
+            if !pal.is_empty() && !frames.is_empty() {
+                // ... or be the very last chunk of the file (no user-data record can follow it there)
+                let legacy = legacy_redundant(pal, rng);
+                let last = frames.len() - 1;
+                frames[last].chunks.push(legacy.into());
+                if frames[last].chunks.len() > 0xFFFF {
+                    frames[last].count_style = CountStyle::NewOnly;
                 }
             }
         }
